@@ -40,21 +40,20 @@ Theorem C15_backtick_name_alone : forall cl w, w <> [] -> forallb plain_in_backt
   tokenize cl (cBT :: w ++ [cBT]) = inl [name_tok w 0 (length w)].
 Proof. exact backtick_name_alone. Qed.
 
-(* Recorded spans are well-formed, inside the string, ordered and non-overlapping -- unless the string contains an EMPTY
-   top-level quoted region (recorded finding): the hypothesis is a computable function of the input. *)
-Theorem C15_spans_ordered_disjoint : forall cl l ts,
-  no_empty_top_level_quote cl l = true -> tokenize cl l = inl ts -> spans_ordered ts (length l).
+(* Recorded spans are well-formed, inside the string, ordered and non-overlapping, for EVERY input the tokenizer accepts.  (Before the repair of
+   /repo that resets the current token after an empty top-level quoted region this needed a side condition on the input, and "%%(+b)" refuted
+   the full statement: the span of '+' swallowed the bracket.) *)
+Theorem C15_spans_ordered_disjoint : forall cl l ts, tokenize cl l = inl ts -> spans_ordered ts (length l).
 Proof. exact tokenize_spans_ordered. Qed.
 Theorem C15_spans_ordered_readable : forall ts n, spans_ordered ts n -> ordered_b None ts n = true.
 Proof. exact chain_ordered_b. Qed.
-(* full-strength statement refuted on the faithful model: "%%(+b)" is accepted and the span of '+' swallows the bracket *)
-Example C15_spans_empty_quote_refuted :
-  exists ts, tokenize (classify_with []) [37; 37; 40; 43; 98; 41] = inl ts /\ ordered_b None ts 6 = false.
+(* the former counterexample: "%%(+b)" now has ordered spans *)
+Example C15_spans_empty_quote_now_ordered :
+  exists ts, tokenize (classify_with []) [37; 37; 40; 43; 98; 41] = inl ts /\ ordered_b None ts 6 = true.
 Proof. eexists. split; vm_compute; reflexivity. Qed.
-(* non-vacuity of the hypotheses *)
 Example C15_example_spans :
-  no_empty_top_level_quote (classify_with []) [121; 32; 126; 96; 97; 32; 43; 96; 43; 102; 40; 120; 41] = true.
-Proof. vm_compute. reflexivity. Qed.
+  exists ts, tokenize (classify_with []) [121; 32; 126; 96; 97; 32; 43; 96; 43; 102; 40; 120; 41] = inl ts /\ ordered_b None ts 13 = true.
+Proof. eexists. split; vm_compute; reflexivity. Qed.
 
 (* the classifier the implementation uses for ASCII is the generated table, and it meets the side conditions *)
 Theorem C15_ascii_table_side_conditions :
@@ -77,7 +76,7 @@ Print Assumptions C15_backtick_verbatim.
 Print Assumptions C15_backtick_name_alone.
 Print Assumptions C15_spans_ordered_disjoint.
 Print Assumptions C15_spans_ordered_readable.
-Print Assumptions C15_spans_empty_quote_refuted.
+Print Assumptions C15_spans_empty_quote_now_ordered.
 Print Assumptions C15_example_spans.
 Print Assumptions C15_ascii_table_side_conditions.
 Print Assumptions C15_tokenizer_literals_are_the_code's.
